@@ -331,5 +331,10 @@ void CDNS::CdnsDecoder::read_to_buffer()
         m_input.read(reinterpret_cast<char*>(m_buffer), BUFFER_SIZE);
         m_p = m_buffer;
         m_end = m_buffer + m_input.gcount();
+
+        // Nothing could be read (end of stream reached exactly at the buffer boundary, empty or
+        // unreadable stream) -> there is no data to decode
+        if (m_p == m_end)
+            throw CdnsDecoderEnd("End of input stream");
     }
 }
